@@ -20,10 +20,10 @@ Trace == ndJsonDeserialize("trace.ndjson")
 
 CONSTANT Enforce
 
-VARIABLES l, reqTab, tokTab
-tvars == <<vars, l, reqTab, tokTab>>
+VARIABLES l, reqTab, tokTab, elemTab
+tvars == <<vars, l, reqTab, tokTab, elemTab>>
 
-Modelled == {"Id", "Flip", "ForeignKey", "ForeignReq", "Drop", "Dup", "Swap", "Perm"}
+Modelled == {"Id", "Flip", "ForeignKey", "ForeignKeyCollide", "ForeignReq", "Drop", "Dup", "Swap", "Perm"}
 Listed   == Modelled \ {"Id"}
 
 St1(e) == ReqState("r1", e.t, "k1", "n1", e.n)
@@ -36,7 +36,7 @@ IsIdentityPerm(p) == \A j \in 1..Len(p) : p[j] = j
 Delivered(e) ==
   LET k == e.mut.kind IN
   CASE k = "Id"         -> Honest(e, "k1")
-    [] k = "ForeignKey" -> Honest(e, "k2")
+    [] k \in {"ForeignKey", "ForeignKeyCollide"} -> Honest(e, "k2")     \* (colliding truncated key ids are still different keys)
     [] k = "ForeignReq" -> [to |-> "r1", from |-> "r2", key |-> "k1", body |-> HonestBody(e.t, "k1", St2(e).sent, "r2"), mut |-> "ForeignReq"]
     [] k = "Flip"       -> MutateT(e.t, Honest(e, "k1"), [kind |-> "Flip", f |-> e.mut.f])
     [] k = "Drop"       -> MutateT(e.t, Honest(e, "k1"), [kind |-> "Drop", i |-> e.mut.i])
@@ -104,7 +104,10 @@ DetObl(e) == <<
   <<"create-is-pure", \A p \in reqTab : p[1] = Args(e) => p[2] = e.req>>,
   <<"blind-changes-request", \A p \in reqTab : (NoBlind([t |-> p[1][1], key |-> p[1][2], nc |-> p[1][3], salt |-> p[1][5]]) = NoBlind(e)
                                                 /\ p[1][4] # e.blind) => p[2] # e.req>>,
-  <<"token-ignores-blind", \A p \in tokTab : p[1] = NoBlind(e) => p[2] = e.tok>> >>
+  <<"token-ignores-blind", \A p \in tokTab : p[1] = NoBlind(e) => p[2] = e.tok>>,
+  \* a blinded element is a function of (key, nonce, blind) wherever it stands in a batch, and of nothing else
+  <<"element-is-function-of-its-own-blind", \A i \in 1..Len(e.elems) : \A p \in elemTab :
+        (p[1] = <<e.t, e.key, e.elems[i][1], e.elems[i][2]>>) <=> (p[2] = e.elems[i][3])>> >>
 
 VectorObl(e) == <<
   <<"vector-request-bytes", e.req_eq>>,
@@ -122,15 +125,18 @@ Obl(e) ==
 
 Failed(e) == LET o == Obl(e) IN {o[i][1] : i \in {j \in 1..Len(o) : o[j][1] \in Enforce /\ ~o[j][2]}}
 
-TInit == Init /\ l = 1 /\ reqTab = {} /\ tokTab = {}
+TInit == Init /\ l = 1 /\ reqTab = {} /\ tokTab = {} /\ elemTab = {}
 TNext ==
   /\ l <= Len(Trace)
   /\ LET e == Trace[l]
          f == Failed(e)
      IN /\ IF f = {} THEN TRUE ELSE PrintT("REJECT " \o ToString(l) \o " " \o e.op \o " " \o ToString(f))
-        /\ CASE e.op = "DetNew" -> reqTab' = {} /\ tokTab' = {}
-             [] e.op = "Det" /\ e.ok -> reqTab' = reqTab \cup {<<Args(e), e.req>>} /\ tokTab' = tokTab \cup {<<NoBlind(e), e.tok>>}
-             [] OTHER -> UNCHANGED <<reqTab, tokTab>>
+        /\ CASE e.op = "DetNew" -> reqTab' = {} /\ tokTab' = {} /\ elemTab' = {}
+             [] e.op = "Det" /\ e.ok ->
+                  /\ reqTab' = reqTab \cup {<<Args(e), e.req>>}
+                  /\ tokTab' = tokTab \cup {<<NoBlind(e), e.tok>>}
+                  /\ elemTab' = elemTab \cup {<<<<e.t, e.key, e.elems[i][1], e.elems[i][2]>>, e.elems[i][3]>> : i \in 1..Len(e.elems)}
+             [] OTHER -> UNCHANGED <<reqTab, tokTab, elemTab>>
   /\ IF l = Len(Trace) THEN PrintT("DONE " \o ToString(l)) ELSE TRUE
   /\ l' = l + 1
   /\ UNCHANGED vars       \* the symbolic system state is rebuilt per event (St1, Delivered)
